@@ -14,4 +14,4 @@ one() {
   echo "$id $kind check=$pid $r   [$t| $dm]"
 }
 export -f one
-ls -d seeded/${prefix}*/ | xargs -P $par -I{} bash -c 'one {}' >> selftest/matrix.txt
+ls -d seeded/${prefix}*/ | xargs -P $par -I{} bash -c 'one {}' >> ${MATRIX_OUT:-selftest/matrix.txt}
